@@ -760,6 +760,10 @@ pub(super) fn start_async_fs_writer(
             std::thread::Builder::new()
                 .name(ASYNC_WRITER.to_string())
                 .spawn(move || loop {
+                    #[cfg(flexi_logger_verif)]
+                    crate::verif_hooks::arm_thread_exit("async_exit");
+                    #[cfg(flexi_logger_verif)]
+                    let _done = crate::verif_hooks::SchedGuard("async_done");
                     match receiver.recv() {
                         Err(_) => break,
                         Ok(mut message) => {
